@@ -46,6 +46,7 @@ def main():
         sys.exit(0 if status == "pass" else 2)
     if not a.property:
         ap.error("property id required")
+    os.environ["VERIF_TIER"] = a.tier  # strategies that size themselves by tier read it (workers inherit it)
     sys.exit(runner.run_property(a.property.upper(), a.tier, a.sub))
 
 
